@@ -181,7 +181,7 @@ SY_L1 = " || sync: the same predicate re-checked on the calls the REAL pod contr
 
 PROPS = {
     "C02": {"module": "Asts.Props.C02",
-            "assumptions": ["PARTIAL: quiescence (a Final world is silent, stays Final for ever) and invariance of the premises under settle and under a round with ANY fault plan are proved for all worlds. Convergence: C02_converges_partial proves, for every world inside the monitor's premise wfWorld that also satisfies the decidable extraB, `exists n <= roundBound i, Final (roundsN n i)` — both policies, the legacy-boundary mode (RollingUpdate without a rollingUpdate block), and the normalising first rounds (adoption of pods and revisions, creation / renumbering of the update revision) included; the bound is the one the run-time monitor uses. extraB = hashing premises (hashOkB: a visible revision records the template or the probe walk ends on a free name within |store|+8 probes having passed only revisions that record something else; labelsOkB: no unparsable hash label next to a mismatching parsable one) + every pod object is a member of the set + spec.replicas set, storage matches, one pod object per ordinal + sizes within the model's id scheme, distinct revision names, no colon in the set's name. NOT proved (monitored only): worlds holding pod objects that are not members (label carriers released in the first sync, pods controlled by somebody else; about 1 % of the generated wfWorld worlds). Both hashing premises are necessary: label_mismatch_never_quiet and equalRevision_not_transitive_quiet_not_final are proved counterexamples (a listed revision whose hash label was tampered with keeps every sync writing; the real hash makes the name determine the label)",
+            "assumptions": ["quiescence (a Final world is silent, stays Final for ever) and invariance of the premises under settle and under a round with ANY fault plan are proved for all worlds. Convergence: C02_converges proves, for every world inside the monitor's premise wfWorld that also satisfies the decidable extraMB, `exists n <= roundBound i, Final (roundsN n i)` — both policies, the legacy-boundary mode (RollingUpdate without a rollingUpdate block), the normalising first rounds (adoption of pods and revisions, creation / renumbering of the update revision) and worlds holding pod objects that are not members of the set (label carriers, foreign pods, non-member orphans) included; the bound is the one the run-time monitor uses. extraMB = hashing premises (hashOkB: a visible revision records the template or the probe walk ends on a free name within |store|+8 probes having passed only revisions that record something else; labelsOkB: no unparsable hash label next to a mismatching parsable one; both NECESSARY: label_mismatch_never_quiet, degenerate_hashing_never_converges, equalRevision_not_transitive_quiet_not_final are proved counterexamples — a listed revision whose hash label was tampered with keeps every sync writing; the real hash makes the name determine the label) + spec.replicas set, storage of every member matches, one member per ordinal (outside these the model never reaches Final) + facts about API objects the model's independent fields do not enforce (pod names and revision names pairwise distinct, no non-member under the canonical name of a desired ordinal) + model encoding (no colon in the set's name; sizes within the id scheme: non-members + members outside the desired set + replicas <= 10^6). All generated wfWorld worlds (4325 of 4325 sampled by the prover) lie inside extraMB; worlds outside it are judged by the monitors only. The theorems named ..._partial are the earlier stages (normal worlds, legacy mode, all-member worlds), kept because the final theorem is built on them",
                             "the fairness premise is the executable `settle` (caches = API, terminating pods gone, every pod that can be is Running and Ready) between reconciles; arbitrary interleavings with lagging caches are not modelled",
                             "premises (wfWorld): valid spec, not paused, not being deleted, well-formed slots, member pods canonically named, matching and not foreign-owned, no Failed/Succeeded pod outside the desired set under OrderedReady, no invisible revision on a probed name; findings of the proof: the eight-probe clause is not inductive (RevProbeFree is), a constant hash function defeats convergence (hashing premise needed)"], "runs": [wo(proj=proj_world_all), sy(quick=4000, proj=proj_sync_all), rc(quick=15000, thorough=150000, proj=lambda c, o: (creates(o), o.get("tplbad")))],
             "rule": WORLD_RULE + " || " + SY_RULE + " || " + RC_RULE},
